@@ -18,7 +18,8 @@ import (
 
 // Connection-manager cases: the real connmgr.New(...).Start() with scripted callbacks.
 //
-// head:   cm t=<TargetOutbound> mf=<connmgr.maxFailedAttempts>
+// head:   cm t=<TargetOutbound> mf=<connmgr.maxFailedAttempts> [nb=1: no BanAddress callback configured,
+//         failures of requests that have an address then go to the GLOBAL failure counter]
 // events: G<a>  the oldest blocked GetNewAddress call returns address <a>
 //         E     the oldest blocked GetNewAddress call returns an error
 //         K<a>  the oldest blocked Dial(<a>) call succeeds
@@ -26,6 +27,11 @@ import (
 //         D<k>  Disconnect(id) of the (k mod open)-th oldest open connection
 //         R<k>  Remove(id) of the (k mod open)-th oldest open connection (closed, never replaced)
 //         Z     Disconnect(id) once more for the most recently disconnected / removed id
+//         BE<n> burst: up to n blocked GetNewAddress calls return an error at once
+//         BF    burst: every blocked Dial call fails at once
+//         BG<a> burst: every blocked GetNewAddress call returns an address at once (a, a+1, ... mod 251)
+//               bursts make the manager handle several results back to back: a retry timer armed for one
+//               result is still pending when the next result is handled
 //         C     (target 1 only) Disconnect(id) of the one request that is in flight - a cancel; with
 //               target 1 requests exist one at a time and the id of the live one is the number of
 //               GetNewAddress calls so far.  A canceled request ends silently at its next step.
@@ -97,10 +103,10 @@ type c18CmFix struct {
 
 func c18AddrName(a int) string { return fmt.Sprintf("10.0.0.%d:8333", a) }
 
-func c18NewCmFix(target int) (*c18CmFix, error) {
+func c18NewCmFix(target int, noBan bool) (*c18CmFix, error) {
 	f := &c18CmFix{quit: make(chan struct{}), pendConn: map[string][]*c18CmConn{}}
 	lg := zerolog.Nop()
-	cm, err := connmgr.New(&connmgr.Config{
+	cfg := &connmgr.Config{
 		TargetOutbound: uint32(target),
 		RetryDuration:  2 * time.Millisecond,
 		Logger:         &lg,
@@ -151,7 +157,11 @@ func c18NewCmFix(target int) (*c18CmFix, error) {
 			f.bans++
 			f.mu.Unlock()
 		},
-	})
+	}
+	if noBan {
+		cfg.BanAddress = nil
+	}
+	cm, err := connmgr.New(cfg)
 	if err != nil {
 		return nil, err
 	}
@@ -232,7 +242,7 @@ func c18RunCm(head []string, evs []string) (obs string) {
 	if target < 1 || target > 64 {
 		return "BAD-INPUT"
 	}
-	f, err := c18NewCmFix(target)
+	f, err := c18NewCmFix(target, c18Head(head, "nb", 0) == 1)
 	if err != nil {
 		return "ERR " + err.Error()
 	}
@@ -284,6 +294,56 @@ func c18RunCm(head []string, evs []string) (obs string) {
 		g0, d0, o0, _, c0 := snap()
 		okw := true
 		switch {
+		case strings.HasPrefix(e, "BE") || e == "BF" || strings.HasPrefix(e, "BG"):
+			arg := 0
+			if e != "BF" {
+				v, err := strconv.Atoi(e[2:])
+				if err != nil || v < 0 || v > 250 {
+					break
+				}
+				arg = v
+			}
+			var gets []chan c18GetReply
+			var dials []*c18DialWait
+			f.mu.Lock()
+			if e == "BF" {
+				dials, f.dialWait = f.dialWait, nil
+			} else {
+				k := len(f.getWait)
+				if e[1] == 'E' && arg < k {
+					k = arg
+				}
+				gets = append(gets, f.getWait[:k]...)
+				f.getWait = append([]chan c18GetReply{}, f.getWait[k:]...)
+			}
+			f.mu.Unlock()
+			k := len(gets) + len(dials)
+			if k == 0 {
+				tag = "-"
+				break
+			}
+			for i, ch := range gets {
+				if e[1] == 'E' {
+					ch <- c18GetReply{err: errors.New("no valid connect address")}
+				} else {
+					ch <- c18GetReply{addr: c18AddrName((arg + i) % 251)}
+				}
+			}
+			for _, w := range dials {
+				w.reply <- false
+			}
+			want := k
+			if canceledLive { // target 1: the one request released is the canceled one
+				canceledLive = false
+				want = 0
+				time.Sleep(2 * time.Millisecond)
+			}
+			if e[1] == 'G' {
+				okw = f.wait(func() bool { return f.dialCalls >= d0+want }, c18CmBound)
+			} else {
+				okw = f.wait(func() bool { return f.getCalls >= g0+want }, c18CmBound)
+			}
+			tag = "B"
 		case e == "C":
 			f.mu.Lock()
 			inflight := len(f.getWait) + len(f.dialWait)
@@ -484,6 +544,82 @@ func c18GenCm(c *Ctx) error {
 		}
 		evs = append(evs, script(5+c.Rng.Intn(20), 4, 0.1, 0.1, 0.0)...)
 		emit(t, evs, "refusals")
+	}
+	// outages: target >= 2, at least maxFailedAttempts consecutive failures handled back to back
+	// (bursts), then recovery in which every dial succeeds; at the end all requests are connected.
+	// kinds: address-source errors (global counter, retry-timer path); refusals rotated over many
+	// distinct addresses (per-address accounting when BanAddress is configured, global counter with
+	// nb=1); mixed; and outage / partial recovery / outage / recovery.
+	outage := func(t, infl, fails, kind int, base *int) []string {
+		// infl = requests in flight (target minus established connections): the failures per burst
+		var evs []string
+		for n := 0; n < fails; {
+			k := kind
+			if kind == 2 {
+				k = c.Rng.Intn(2)
+			}
+			if k == 0 {
+				m := 1 + c.Rng.Intn(infl)
+				evs = append(evs, fmt.Sprintf("BE%d", m))
+				n += m
+				if c.Rng.Intn(3) == 0 {
+					evs = append(evs, "E")
+					n++
+				}
+			} else {
+				evs = append(evs, fmt.Sprintf("BG%d", *base%251), "BF")
+				*base += infl
+				n += infl
+			}
+		}
+		return evs
+	}
+	recoverAll := func(t int, base *int) []string {
+		// every waiting request gets a fresh address and its dial succeeds
+		evs := []string{fmt.Sprintf("BG%d", *base%251)}
+		for i := 0; i < t; i++ {
+			evs = append(evs, fmt.Sprintf("K%d", (*base+i)%251))
+		}
+		*base += t
+		return evs
+	}
+	for i, n := 0, c.Pick(72, 1400); i < n; i++ {
+		t := 2 + c.Rng.Intn(7)
+		kind := i % 3
+		nb := 0
+		if kind != 0 && c.Rng.Intn(3) != 0 {
+			nb = 1
+		}
+		base := c.Rng.Intn(200)
+		var evs []string
+		// some slots may be connected before the outage
+		pre := c.Rng.Intn(t - 1) // at least two requests stay in flight
+		for j := 0; j < pre; j++ {
+			evs = append(evs, fmt.Sprintf("G%d", (base+j)%251), fmt.Sprintf("K%d", (base+j)%251))
+		}
+		base += pre
+		evs = append(evs, outage(t, t-pre, mf+c.Rng.Intn(36), kind, &base)...)
+		class := []string{"outage-address-errors", "outage-refusals", "outage-mixed"}[kind]
+		if i%4 == 3 {
+			// partial recovery (a success resets the global counter), second outage
+			evs = append(evs, fmt.Sprintf("G%d", base%251), fmt.Sprintf("K%d", base%251))
+			base++
+			if t-pre-1 >= 1 {
+				evs = append(evs, outage(t, t-pre-1, mf+c.Rng.Intn(36), kind, &base)...)
+			}
+			class = "outage-twice"
+		}
+		evs = append(evs, recoverAll(t, &base)...)
+		head := fmt.Sprintf("cm t=%d mf=%d", t, mf)
+		if nb == 1 {
+			head += " nb=1"
+		}
+		in := head + ";" + strings.Join(evs, ";")
+		if !seen[in] {
+			seen[in] = true
+			c.Case(in, c18RunCm(strings.Fields(head), evs))
+			c.Count("cm:" + class)
+		}
 	}
 	// Remove (retry = false; no caller in the server, public API): the connection is closed for good
 	for i, n := 0, c.Pick(40, 800); i < n; i++ {
